@@ -672,6 +672,21 @@ func c16Gen(g *Gen) {
 		final := 20 + g.R.Intn(2)
 		both("stream", 1, ops, Ls(I(final), I(g.R.Intn(2)), Ls(chunks...)))
 	}
+	// 6. equal neighbours: the same short bytes decoded as binary then as string (and in the other
+	//    orders) on one reader; a result must never be shared with, or a view of, an earlier one
+	for _, n := range []int{1, 2, 5, 16, 64, 65, 300} {
+		for seed := 0; seed < 3; seed++ {
+			val := func() V { return Ls(I(1), c16BE(n), PatV(seed*37+n, n)) }
+			for _, kinds := range [][]int{{0, 1}, {0, 1, 1, 0}, {1, 0, 1}, {0, 0, 1}} {
+				var ops []V
+				for _, k := range kinds {
+					ops = append(ops, c16Op(k, -1, 0, val(), false))
+				}
+				both("equal-neighbours", 1, ops, Ls(I(20), I(0), Ls()))
+				both("equal-neighbours", 0, ops, none)
+			}
+		}
+	}
 	both("stream-large", 1, []V{c16Op(0, -1, 0, c16Val(g, 200000, 0), false), c16Op(1, -1, 0, c16Val(g, 70000, 0), false)}, Ls(I(20), I(0), Ls()))
 }
 
